@@ -260,7 +260,7 @@ pub fn run(ctx: &mut Ctx) {
     // thorough: exhaustive 3 * 2^32; quick: stride
     let stride: u64 = match (ctx.tier, ctx.miri) {
         (_, true) => 1 << 26,
-        (Tier::Quick, _) => 1 << 9,
+        (Tier::Quick, _) => 1 << 6,
         (Tier::Thorough, _) => 1,
     };
     let stride = if ctx.scale < 1.0 && stride == 1 { (1.0 / ctx.scale) as u64 } else { stride };
@@ -333,7 +333,7 @@ pub fn run(ctx: &mut Ctx) {
         }
         ctx.exhaustive.insert("pool_pairs(boundary pool x boundary pool)".into(), !ctx.miri);
     }
-    let n = ctx.budget(1_000_000, 10_000_000);
+    let n = ctx.budget(5_000_000, 50_000_000);
     for i in 0..n {
         if !ctx.next_case() {
             return;
